@@ -352,6 +352,38 @@ def run(chk):
         return True, "", [b.span]
     chk.ob("C16.R4:with_formatter", "Part::with_formatter stores the given formatter in the hole and returns the part", with_formatter_stores)
 
+    def render_views_render():
+        """Every way a `Render` (template + props) leaves as data - `ToValue`, sval `Value` / `ValueRef`, serde `Serialize` - shows the *rendered* text:
+        what is handed to the value / stream / serializer is `self` (whose Display is `Render::write`) or, on the edge where `as_literal()` is
+        `Some`, that literal.  None of them forwards to the bare template (`self.tpl`), which knows no props and would show `Hello, {user}`."""
+        n = 0
+        ev = []
+        for k, b in P.bodies.items():
+            if b.is_closure or "template::Render<" not in (b.self_ty or k) or not b.trait:
+                continue
+            if not (b.trait.startswith(("sval::", "sval_ref::", "serde", "emit_core::value::ToValue"))):
+                continue
+            n += 1
+            sinks = [c for c in b.calls(normal_only=True) if c.callee.get("name") not in ("as_literal",) and len(c.args) >= 1]
+            for c in sinks:
+                for a in c.args:
+                    o = b.origin(a)
+                    names = mir.o_field_path(o)[1] or []
+                    if "tpl" in names and mir.o_is_param(mir.o_root(o), idx=1):
+                        return False, ("%s hands the bare template (self.tpl) to `%s`: the template is shown with its holes unfilled instead of the rendered "
+                                       "message" % (k, c.callee.get("name"))), [], c.loc
+                    if o[0] in ("field", "downcast") and mir.o_is_call(mir.o_root(o), name="as_literal"):
+                        # literal short-cut: only on the Some edge of as_literal()
+                        continue
+            shows_self = any(mir.o_is_param(mir.o_root(b.origin(a)), idx=1) and not (mir.o_field_path(b.origin(a))[1] or []) for c in sinks for a in c.args)
+            if not shows_self:
+                return False, "%s never hands `self` (the rendering) on" % k, [], b.span
+            ev.append(b.span)
+        if n < 3:
+            raise mir.AnchorMissing("value / serialisation impls for Render (found %d)" % n)
+        return True, "", ev
+    chk.ob("C16.R2:render-views", "ToValue / sval / serde views of a Render show the rendered text, never the bare template", render_views_render)
+
     def cursors():
         eqb = P.body(EQ)
         ok, detail, sites = panics.cursor_pairing(eqb)
